@@ -99,6 +99,8 @@ class CanaryScanner(logging.Handler):
         self.scanned = 0
         self.debug_records = 0
         self.by_logger = {}
+        self.recent = []       # (record meta, text) of the records scanned since the last clear_recent(): secrets the
+        #                        server generates are only known afterwards and are looked for in here
 
     def plant(self, secret, kind):
         for f in canary_forms(secret):
@@ -109,6 +111,21 @@ class CanaryScanner(logging.Handler):
             # a few windows: start, middle, end (a full sliding search is done on hits only)
             for off in sorted(set((0, max(0, (len(f) - w) // 2), len(f) - w))):
                 self.windows[f[off:off + w]] = kind
+
+    def clear_recent(self):
+        self.recent = []
+
+    def plant_late(self, secret, kind):
+        """Plant a canary that only became known now (a server-generated value read back) and look for it in the
+        records scanned since clear_recent()."""
+        before = set(self.windows)
+        self.plant(secret, kind)
+        new = [w for w in self.windows if w not in before]
+        for meta, text in self.recent:
+            for w in new:
+                if w in text:
+                    self.hits.append(dict(meta, kind=kind, window=w, text=text[:300]))
+                    break
 
     def scan_text(self, text):
         for w, kind in self.windows.items():
@@ -129,6 +146,9 @@ class CanaryScanner(logging.Handler):
             text = str(record.msg) + repr(record.args)
         if record.exc_info and record.exc_info[0] is not None:
             text += '\n' + ''.join(traceback.format_exception(*record.exc_info))
+        if len(self.recent) < 20000:
+            self.recent.append(({'logger': record.name, 'level': record.levelname,
+                                 'where': '%s:%s' % (record.module, record.funcName)}, text))
         hit = self.scan_text(text)
         if hit:
             self.hits.append({'logger': record.name, 'level': record.levelname,
